@@ -151,7 +151,7 @@ func genC17(tier, out string, sum *Summary) {
 			c.same("map", proj(PList, x, e), proj(PList, call("map", ar(e), av(x)), cur()), doc)
 		case 2: // filter / flatten / slice projection = unprojected result piped into [*]
 			k := pick(kinds[1:4])
-			e := g.rhs(1, 10)
+			e := g.rhs(1, 9)
 			full := k(x, e)
 			bare := *full
 			bare.Rt = cur()
@@ -217,7 +217,7 @@ func genC17(tier, out string, sum *Summary) {
 			c.same("hash-then-key", sub(mhash(KV{"k", e}), fld("k")), e, doc)
 		case 7: // fused forms: a bare projection equals the same projection of @
 			k := pick(kinds)
-			e := g.rhs(1, 10)
+			e := g.rhs(1, 9)
 			p := k(cur(), e)
 			if p.PK == PSlice && typeOf(cur(), doc) == "string" {
 				continue
